@@ -58,6 +58,8 @@ def pool(rng, kind, hostile=0.25, tags=None):
         return [True, False]
     if kind in ("int", "int32"):
         p = list(INT_SMALL)
+        if kind == "int32":
+            p += [16777217, 123456789, -2147483648, 2147483647]       # beyond the 24 bits a float32 holds exactly
         if kind == "int" and h:
             p += INT_BIG
             if tags is not None: tags.add("int_big")
